@@ -210,8 +210,7 @@ def check_name(item):
         import vf.usercls_gen as u
         cls = u.CLASSES[name]["cls"]
         want = u.CLASSES[name]["handler_chain"][0]
-        if "_is_expr_dataclass" in cls.__dict__ and "mapper_method" not in (
-                "ExplicitName",) and name != "ExplicitName":
+        if "_is_expr_dataclass" in cls.__dict__ and not u.CLASSES[name]["explicit"]:
             if want != "map_" + snake(name):
                 return [("harness", f"harness|{name}", "generator table inconsistent")]
     got = getattr(cls, "mapper_method", None)
@@ -417,8 +416,9 @@ def t_combine(spec, args, kw, cached, collector):
         unsupported = COMBINE_UNSUPPORTED
     expr = build_shared(spec) if cached else build(spec)
     tags = reachable_tags(spec)
+    mapper = M()
     try:
-        res = M()(expr, *args, **kw)
+        res = mapper(expr, *args, **kw)
     except (UnsupportedExpressionError, NotImplementedError):
         if tags & unsupported:
             return None
@@ -440,6 +440,25 @@ def t_combine(spec, args, kw, cached, collector):
         if res != want:
             return "combine:result", (f"missing {[show(k) for k in (want - res)]} "
                                       f"extra {[show(k) for k in (res - want)]}")
+    # history on the same instance: every subtree on its own, after the whole tree (a memoized
+    # result must not have been widened by the siblings it was combined with), then the whole again
+    subs = []
+    for s in _occ_specs(spec):
+        if sort_maps(s) not in subs:
+            subs.append(sort_maps(s))
+    for s in [*subs[1:], subs[0]]:
+        if s[0] in ("str", "none", "type", "map", "dict", "tuple") or reachable_tags(s) & unsupported:
+            continue
+        again = mapper(build_shared(s) if cached else build(s), *args, **kw)
+        if collector:
+            ok = {norm(v) for v in again} == {c for c in leaves_counter(s)
+                                              if base_view(c)[0] == "Variable"}
+        else:
+            ok = again == leaves_counter(s)
+        if not ok:
+            return (("collector" if collector else "combine") + ":instance-history",
+                    f"after the whole tree, the same instance returns {again!r} for the subtree "
+                    f"{show(s)}")
     return None
 
 
@@ -551,15 +570,18 @@ def _occ_specs(spec):
 class C04(Check):
     pid = "C04"
     level = "exploration"
-    rule = ("dispatch: all 67 generated user classes (hierarchies of depth 1-2 over Expression, "
-            "Variable, Sum, CommonSubexpression; levels decorated+0/1 field, undecorated, legacy) "
+    rule = ("dispatch: all 85 generated user classes (hierarchies of depth 1-2 over Expression, "
+            "Variable, Sum, CommonSubexpression; levels decorated+0/1 field, undecorated, legacy; "
+            "init=False / hash=False; explicit handler names, also ones equal to the base's) "
             "x all subsets of the handlers in their chain x {Mapper, CachedMapper} x {__call__, "
             "rec, rec_fallback} x 3 extra-argument shapes; 23 kinds of foreign objects; derived "
             "handler names of all built-in and generated classes. traversals: every constructor "
             "shape of the full alphabet with every leaf combination and every (parent, position, "
             "child) nesting (thorough: plus three-level chains over 20 shapes) x extra-argument shapes (quick 3, thorough 6) x {identity, rewriting "
             "identity, walk, walk with visit()=False at each composite node, leaf-counting combine, "
-            "collector, callback} and their cached variants. Non-trivial = composite tree / class "
+            "collector, callback} and their cached variants; combine and collector instances are "
+            "called again, after the whole tree, on every distinct subtree and on the whole tree "
+            "(instance history). Non-trivial = composite tree / class "
             "with at least one handler; distinct = distinct (case) descriptors.")
     assumptions = [
         "the resolution order is restated from the statement over type(expr).__mro__; the "
